@@ -844,6 +844,10 @@ func neverNilCall(t *T) bool {
 	if t.Op == "call" && (t.Name == "errors.New" || t.Name == "fmt.Errorf") {
 		return true
 	}
+	// a package-level sentinel error (var errX = errors.New(...), never reassigned)
+	if t.Op == "load" && len(t.Args) == 1 && t.Args[0].Op == "global" && t.Args[0].G != nil && sentinelError(t.Args[0].G) {
+		return true
+	}
 	// the address of an object allocated on this path (&T{…}, new(T)) is never nil
 	return t.Op == "obj" && strings.HasPrefix(t.String(), "&")
 }
